@@ -84,6 +84,7 @@ class FGen(c05gen.Gen):
 
     def __init__(self, rng, outer, max_nodes=45):
         super().__init__(rng, max_nodes)
+        self.use_eval = False          # the argument of eval is data to freeze: not part of the property
         self.branch_scoped = True      # names declared in an if-branch / try body are not used outside it
         self.outer = set(outer)
         for n, k in outer.items():
